@@ -582,8 +582,9 @@ def behaviours_simulated(ctx, wpath, world_ids, max_len, num, tag):
     cfg = ctx.cfg(f"sim-gary-{tag}", spec="Spec",
                   constants={"WorldSet": "{" + ", ".join(map(str, world_ids)) + "}", "MaxLen": max_len})
     d = ctx.scratch.sub(f"sim-{tag}")
-    ctx.tlc("MC_Gary", cfg, kind="simulate", env={"WORLD_FILE": wpath}, simulate=f"file={d}/tr,num={num}",
-            depth=max_len + 1, seed=ctx.seed + 1, workers=1, coverage=False, timeout=900, tag=f"sim-{tag}")
+    r = ctx.tlc("MC_Gary", cfg, kind="simulate", env={"WORLD_FILE": wpath}, simulate=f"file={d}/tr,num={num}",
+                depth=max_len + 1, seed=ctx.seed + 1, workers=1, coverage=False, timeout=900, tag=f"sim-{tag}")
+    require_ok(r, f"(simulation MC_Gary {tag})")
     out = []
     for name in sorted(os.listdir(d)):
         with open(os.path.join(d, name)) as f:
